@@ -8,7 +8,12 @@ spec_op.h).  The general path's combiners are C01's subject; here:
   (3) C fast paths of pixman-fast-path.c on small hand-built images (fastpath.c: a8r8g8b8 / a8; fastpath_fmt.c: any
       direct-colour format through the literal WIDEN / NARROW of spec_format.h);
   (4) whole-row sse2_composite_* routines (sse2_composite.c): head pixel + one vector body + tail pixel at a fixed phase.
-Row jobs of (3b)/(4) are scheduled only if they have a measured passing run (MEASURED).
+  (5) extension `fst': masked routines with the ghost pixel fixed per query (one query per pixel of the row; with a symbolic
+      ghost pixel the colour channels never finished), component-alpha / a8r8g8b8-mask / pixbuf SSE2 rows, the SSE2 scanline
+      fetchers (fst_sse2_fetch.c), the rotation blitters (fst_rotate.c), fast_composite_tiled_repeat (fst_tiled.c), the per-pixel
+      operator of the nearest-neighbour scanline helpers (fst_nearest.c).  fst_rowd.c (route D, unbounded row contracts on
+      the C fast paths) is kept but NOT scheduled: see META not_covered.
+Row jobs of (3b)/(4)/(5) are scheduled only if they have a measured passing run (MEASURED).
 The evidence carries the list of every fast-path table entry of sse2 / fast with its status and job names.
 """
 import os, re, json
@@ -229,7 +234,7 @@ def fastfmt_jobs(tier):
     todo = [(fn, "", v) for fn, v in FPF.items()] + [(fn, "." + v[4], v) for fn, vs in FPF_MULTI.items() for v in vs]
     for fn, tag, (op, mode, sfmt, mfmt, dfmt, chans, xbase, qch) in todo:
       for fix in (FPF_FIXX.get(fn) or (FPF_FIXX_DEFAULT if mode and not xbase else [None])):
-        for ch in tuple(chans) + (4,):
+        for ch, k in [(c, kk) for c in tuple(chans) + (4,) for kk in (None, 0, 1, 2)]:
             if quick and ch not in qch:
                 continue
             if fn == "fast_composite_over_n_8_8888" and ch == 4:
@@ -246,6 +251,15 @@ def fastfmt_jobs(tier):
             if fix and ch != 4:
                 d["VC_SX"], d["VC_MX"], d["VC_DX"] = fix
                 xtag = ".x%d%d%d" % fix
+                if k is not None and k != 1 and ch != (1 if 1 in chans else chans[0]):
+                    continue     # every pixel position for one channel, the middle pixel for the others
+                if k is not None:
+                    # ghost pixel fixed as well: with a symbolic ghost pixel the colour channels of the masked OVER / IN routines
+                    # (two chained products per channel) did not finish in an hour; one query per pixel of the row takes 30-110 s
+                    d["VC_K"] = k
+                    xtag += ".k%d" % k
+            elif k is not None:
+                continue
             stubs = ["%s: _pixman_image_get_solid replaced by a stub returning the symbolic colour" % fn] if sfmt is None else []
             if fn == "fast_composite_src_memcpy":
                 d["VC_OWN_MEMCPY"] = None
@@ -257,9 +271,9 @@ def fastfmt_jobs(tier):
                     "x offsets of src/mask/dest symbolic (3 x 3 x 2 values%s)" % (", 1-bpp rows start at bit %d..%d: the span crosses a 32-bit word" % (xbase, xbase + 2) if xbase else ""))
             js.append(Job("fast.%s%s%s.ch%d" % (fn, tag, xtag, ch), "C02/fastpath_fmt.c", defines=d,
                           unwind=max(w + 6, 26 if dfmt == "r8g8b8" else 0, 66 if "a1" in (dfmt,) else 0, 4 * w + 2 if fn == "fast_composite_src_memcpy" else 0),
-                          cbmc_flags=PC, kind="bounded", bound="width %d, height 1%s" % (w, ", x offsets fixed" if xtag else ""), functions=[fn], extra_sources=RL,
-                          domain="%s %s, %s, %s: one row of %d pixels, %s, ghost pixel symbolic, every pixel value; %s"
-                                 % (op, sfmt or "solid", mfmt or "-", dfmt, w, xdom,
+                          cbmc_flags=PC, kind="bounded", bound="width %d, height 1%s%s" % (w, ", x offsets fixed" if xtag else "", "" if k is None else ", ghost pixel %d" % k), functions=[fn], extra_sources=RL,
+                          domain="%s %s, %s, %s: one row of %d pixels, %s, ghost pixel %s, every pixel value; %s"
+                                 % (op, sfmt or "solid", mfmt or "-", dfmt, w, xdom, "symbolic" if k is None else "%d (one query per pixel)" % k,
                                     "field of channel %d == NARROW (C01 spec (WIDEN src, WIDEN mask, WIDEN dest))" % ch if ch < 4 else
                                     "frame" if ch == 4 else "all defined bits == NARROW_PIX (WIDEN_PIX (source)) (SRC: no arithmetic)"),
                           assumptions=stubs,
@@ -301,8 +315,39 @@ S2C = {
     "sse2_composite_over_8888_n_8888":    ("OVER", 1, "a8r8g8b8", "solid", "a8r8g8b8", (1, 3), G32, (0, 2, 5), ()),
     "sse2_composite_over_x888_n_8888":    ("OVER", 1, "x8r8g8b8", "solid", "a8r8g8b8", (1, 3), G32, (0, 2, 5), ()),
     "sse2_composite_over_n_8_0565":       ("OVER", 1, "solid", "a8", "r5g6b5", (1,), G16, (0, 4, 9), ()),
+    # component-alpha masks, a8r8g8b8 mask with a8r8g8b8 source, pixbuf requests (extension `fst')
+    "sse2_composite_add_n_8888_8888_ca":  ("ADD", 2, "solid", "a8r8g8b8", "a8r8g8b8", (1, 3), G32, (0, 2, 5), ()),
+    "sse2_composite_over_n_8888_8888_ca": ("OVER", 2, "solid", "a8r8g8b8", "a8r8g8b8", (1, 3), G32, (0, 2, 5), ()),
+    "sse2_composite_over_n_8888_0565_ca": ("OVER", 2, "solid", "a8r8g8b8", "r5g6b5", (1,), G16, (0, 4, 9), ()),
+    "sse2_composite_over_8888_8888_8888": ("OVER", 1, "a8r8g8b8", "a8r8g8b8", "a8r8g8b8", (1, 3), G32, (0, 2, 5), ()),
+    "sse2_composite_over_pixbuf_8888":    ("OVER", 1, "x8b8g8r8", "pixbuf", "a8r8g8b8", (0, 1, 3), G32, (0, 2, 5), ()),
+    "sse2_composite_over_pixbuf_0565":    ("OVER", 1, "x8b8g8r8", "pixbuf", "r5g6b5", (0, 1), G16, (0, 4, 9), ()),
 }
 S2C_TIMEOUT = {}
+# sliced queries whose input arrays are assigned element by element (-DVC_SLICED: the sliced trace then keeps the inputs and a
+# counterexample can be replayed natively) -- the ones with a measured passing run in that configuration; the other sliced
+# queries keep the declared-only arrays they were measured with (a counterexample of theirs is reported without native replay;
+# sse2c.sse2_composite_over_8888_n_8888.k2.ch1 needed 1179 s instead of 267 s with the assigned arrays)
+S2C_SLICED_ASSIGNED = {"sse2c.sse2_composite_add_n_8888_8888_ca.k2.ch1",
+                       "sse2c.sse2_composite_over_8888_8888_8888.k2.ch1",
+                       "sse2c.sse2_composite_over_8888_8_8888.k0.ch1",
+                       "sse2c.sse2_composite_over_8888_8_8888.k2.ch1",
+                       "sse2c.sse2_composite_over_8888_8_8888.k2.ch3",
+                       "sse2c.sse2_composite_over_8888_8_8888.k5.ch1",
+                       "sse2c.sse2_composite_over_n_8888_8888_ca.k2.ch1",
+                       "sse2c.sse2_composite_over_n_8_0565.k4.ch1",
+                       "sse2c.sse2_composite_over_n_8_8888.k0.ch1",
+                       "sse2c.sse2_composite_over_n_8_8888.k2.ch1",
+                       "sse2c.sse2_composite_over_n_8_8888.k2.ch3",
+                       "sse2c.sse2_composite_over_n_8_8888.k5.ch1",
+                       "sse2c.sse2_composite_over_pixbuf_0565.k4.ch0",
+                       "sse2c.sse2_composite_over_pixbuf_0565.k4.ch1",
+                       "sse2c.sse2_composite_over_pixbuf_8888.k2.ch0",
+                       "sse2c.sse2_composite_over_pixbuf_8888.k2.ch1",
+                       "sse2c.sse2_composite_over_x888_8_8888.k0.ch1",
+                       "sse2c.sse2_composite_over_x888_8_8888.k2.ch1",
+                       "sse2c.sse2_composite_over_x888_n_8888.k2.ch1"}
+S2C_UNSLICED = {"sse2c.sse2_composite_in_n_8_8.k8.ch3", "sse2c.sse2_composite_add_n_8_8.k0.ch3", "sse2c.sse2_composite_add_n_8_8.k17.ch3", "sse2c.sse2_composite_add_n_8_8.k8.ch3", "sse2c.sse2_composite_add_n_8_8888.k0.ch1", "sse2c.sse2_composite_add_n_8_8888.k0.ch3", "sse2c.sse2_composite_add_n_8_8888.k2.ch1", "sse2c.sse2_composite_add_n_8_8888.k2.ch3", "sse2c.sse2_composite_add_n_8_8888.k5.ch1", "sse2c.sse2_composite_add_n_8_8888.k5.ch3", "sse2c.sse2_composite_over_n_8_8888.k0.ch3", "sse2c.sse2_composite_src_n_8_8888.k0.ch1", "sse2c.sse2_composite_src_n_8_8888.k0.ch3", "sse2c.sse2_composite_src_n_8_8888.k2.ch1", "sse2c.sse2_composite_src_n_8_8888.k2.ch3", "sse2c.sse2_composite_src_n_8_8888.k5.ch1", "sse2c.sse2_composite_src_n_8_8888.k5.ch3"}
 
 
 def sse2c_jobs(tier):
@@ -321,6 +366,9 @@ def sse2c_jobs(tier):
                 if mfmt == "solid":
                     d["VC_MSOLID"] = None
                     d["VC_MFMT"] = "a8r8g8b8"
+                elif mfmt == "pixbuf":
+                    d["VC_PIXBUF"] = None
+                    d["VC_MFMT"] = "a8r8g8b8"
                 elif mfmt:
                     d["VC_MFMT"] = mfmt
                 if k is not None:
@@ -330,8 +378,15 @@ def sse2c_jobs(tier):
                     stubs.append("%s: _pixman_image_get_solid replaced by a stub returning the symbolic colour" % fn)
                 if fn in ("sse2_composite_add_n_8888", "sse2_composite_add_n_8", "sse2_composite_in_n_8"):
                     stubs.append("%s: pixman_fill (colour 0 / ~0 shortcut) replaced by a per-pixel store of the filler (C19 covers pixman_fill)" % fn)
-                js.append(Job("sse2c.%s%s.ch%d" % (fn, "" if k is None else ".k%d" % k, ch), "C02/sse2_composite.c", defines=d,
-                              unwind=row + 2, cbmc_flags=PC, kind="bounded", object_bits=10,
+                jn = "sse2c.%s%s.ch%d" % (fn, "" if k is None else ".k%d" % k, ch)
+                # masked pixel queries: the formula is sliced to the cone of influence of the obligations (the other pixels of the
+                # row drop out); without it the colour channels of the masked OVER / IN routines did not finish in 900 s.  Queries
+                # measured before the flag was introduced keep their measured configuration.
+                sl = ["--slice-formula"] if (mode and ch < 4 and jn not in S2C_UNSLICED) else []
+                if sl and (jn in S2C_SLICED_ASSIGNED or os.environ.get("C02_SLICED_ASSIGNED")):
+                    d["VC_SLICED"] = None     # input arrays assigned element by element: the sliced trace keeps the inputs (native replay)
+                js.append(Job(jn, "C02/sse2_composite.c", defines=d,
+                              unwind=row + 2, cbmc_flags=PC + sl, kind="bounded", object_bits=10,
                               bound="width %d, height 1, destination x %d (16-byte phase fixed: 1 head pixel, one vector body, 1 tail pixel), source x %d, mask x %d%s"
                                     % (w, dx, sx, mx, "" if k is None else ", ghost pixel %d" % k),
                               functions=[fn, "_pixman_implementation_create_sse2"], extra_sources=RL,
@@ -342,14 +397,264 @@ def sse2c_jobs(tier):
     return js
 
 
+# ---- (3c) route D: unbounded row contracts on C fast paths with a plain `while (w--)` pixel loop (harness/C02/fst_rowd.c)
+# routine: (op, mode, source format | None = solid, mask format | None, destination format, channels,
+#           pointer locals walked by the row loop, other locals assigned in the loop (declared outside it),
+#           number of (inner row loop, outer height loop) pairs in the function)
+LE = "__CPROVER_loop_entry"
+RD = {
+    "fast_composite_over_x888_8_8888":    ("OVER", 1, "x8r8g8b8", "a8", "a8r8g8b8", (0, 1, 2, 3), ("dst", "src", "mask"), ("m", "s", "d"), 1),
+    "fast_composite_in_n_8_8":            ("IN", 1, None, "a8", "a8", (3,), ("dst", "mask"), ("m", "t"), 2),
+    "fast_composite_in_8_8":              ("IN", 0, "a8", None, "a8", (3,), ("dst", "src"), ("s", "t"), 1),
+    "fast_composite_over_n_8_8888":       ("OVER", 1, None, "a8", "a8r8g8b8", (0, 1, 2, 3), ("dst", "mask"), ("m", "d"), 1),
+    "fast_composite_add_n_8888_8888_ca":  ("ADD", 2, None, "a8r8g8b8", "a8r8g8b8", (0, 1, 2, 3), ("dst", "mask"), ("ma", "d", "s"), 1),
+    "fast_composite_over_n_8888_8888_ca": ("OVER", 2, None, "a8r8g8b8", "a8r8g8b8", (0, 1, 2, 3), ("dst", "mask"), ("ma", "d", "s"), 1),
+    "fast_composite_over_n_8_0565":       ("OVER", 1, None, "a8", "r5g6b5", (0, 1, 2), ("dst", "mask"), ("m", "d"), 1),
+    "fast_composite_over_n_8888_0565_ca": ("OVER", 2, None, "a8r8g8b8", "r5g6b5", (0, 1, 2), ("dst", "mask"), ("ma", "d", "s"), 1),
+    "fast_composite_over_8888_8888":      ("OVER", 0, "a8r8g8b8", None, "a8r8g8b8", (0, 1, 2, 3), ("dst", "src"), ("s", "a"), 1),
+    "fast_composite_src_x888_8888":       ("SRC", 0, "x8r8g8b8", None, "a8r8g8b8", (0, 1, 2, 3), ("dst", "src"), (), 1),
+    "fast_composite_over_8888_0565":      ("OVER", 0, "a8r8g8b8", None, "r5g6b5", (0, 1, 2), ("dst", "src"), ("s", "a", "d"), 1),
+    "fast_composite_add_8_8":             ("ADD", 0, "a8", None, "a8", (3,), ("dst", "src"), ("s", "d", "t"), 1),
+    "fast_composite_add_0565_0565":       ("ADD", 0, "r5g6b5", None, "r5g6b5", (0, 1, 2), ("dst", "src"), ("s", "d"), 1),
+    "fast_composite_add_8888_8888":       ("ADD", 0, "a8r8g8b8", None, "a8r8g8b8", (0, 1, 2, 3), ("dst", "src"), ("s", "d"), 1),
+    "fast_composite_add_n_8_8":           ("ADD", 1, None, "a8", "a8", (3,), ("dst", "mask"), (), 1),
+}
+RD_MEASURED = {}   # none: see META not_covered (route D on the nested composite loops did not close)
+
+
+def rowd_tpl(fn, ch, outer=False):
+    """loop-contract template of the inner `while (w--)` row loop / of the outer `while (height--)` loop (two-state invariant:
+    height == 1 nothing done yet, height == 0 the row is done; the contract's precondition fixes height == 1)"""
+    op, mode, sfmt, mfmt, dfmt, chans, ptrs, temps, npairs = RD[fn]
+    sf, mf = sfmt or "a8r8g8b8", mfmt or "a8"
+    lines = ["%s_line" % p for p in ptrs]
+    if not outer:
+        walk = " && ".join("%s == %s(%s) + (width - w)" % (p, LE, p) for p in ptrs)
+        d0 = "%s(dst)" % LE
+        if ch == 4:
+            body = "((gf >= dest_x && gf < dest_x + width) || %s[gf - dest_x] == %s(%s[gf - dest_x]))" % (d0, LE, d0)
+        else:
+            s = "src" if sfmt is None else "%s(src)[gk]" % LE
+            m = "%s(mask)[gk]" % LE if mode else "0u"
+            body = ("(gk < width - w ==> FST_POST (%s, %s, %s, %s, %s, %s(%s[gk]), %s[gk])) && (gk >= width - w ==> %s[gk] == %s(%s[gk]))"
+                    % (sf, s, mf, m, dfmt, LE, d0, d0, d0, LE, d0))
+        inv = "0 <= w && w <= width && %s && %s" % (walk, body)
+        assigns = ["w"] + list(ptrs) + list(temps) + ["__CPROVER_object_whole(dst)"]
+        dec = "w"
+        vs = ["w", "width", "dest_x", "gk=gk", "gf=gf"] + list(ptrs) + list(temps)
+    else:
+        same = " && ".join("%s == %s(%s)" % (p, LE, p) for p in lines)
+        d0 = "%s(dst_line)" % LE
+        if ch == 4:
+            body = "((gf >= dest_x && gf < dest_x + width) || %s[gf - dest_x] == %s(%s[gf - dest_x]))" % (d0, LE, d0)
+        else:
+            s = "src" if sfmt is None else "%s(src_line)[gk]" % LE
+            m = "%s(mask_line)[gk]" % LE if mode else "0u"
+            body = ("(height == 1 ==> %s[gk] == %s(%s[gk])) && (height == 0 ==> FST_POST (%s, %s, %s, %s, %s, %s(%s[gk]), %s[gk]))"
+                    % (d0, LE, d0, sf, s, mf, m, dfmt, LE, d0, d0))
+        inv = "(height == 1 || height == 0) && (height == 1 ==> %s) && %s" % (same, body)
+        assigns = ["height", "w"] + lines + list(ptrs) + list(temps) + ["__CPROVER_object_whole(dst_line)"]
+        dec = "height"
+        vs = ["height", "w", "width", "dest_x", "gk=gk", "gf=gf"] + lines + list(ptrs) + list(temps)
+    if sfmt is None and "src" not in vs:
+        vs.append("src")
+    return {"assigns": ", ".join(assigns), "invariants": inv, "decreases": dec, "vars": vs, "headers": ["spec_fst.h"]}
+
+
+def rowd_jobs(tier):
+    js = []
+    for fn, (op, mode, sfmt, mfmt, dfmt, chans, ptrs, temps, npairs) in RD.items():
+        for ch in tuple(chans) + (4,):
+            name = "rowD.%s.ch%d" % (fn, ch)
+            d = {"VC_FN": fn, "VC_OP": SPOP[op], "VC_MODE": mode, "VC_CH": ch, "VC_DFMT": dfmt}
+            if sfmt is None:
+                d["VC_SOLID"] = None
+            else:
+                d["VC_SFMT"] = sfmt
+            if mfmt:
+                d["VC_MFMT"] = mfmt
+            loops = []
+            for _ in range(npairs):
+                loops += [rowd_tpl(fn, ch), None]       # inner row loop: invariant; outer height loop: executed once (unwound)
+            uw = ",".join("%s_wrapped_for_contract_checking.%d:2" % (fn, i) for i in range(npairs))
+            js.append(Job(name, "C02/fst_rowd.c", route="D", enforce=fn, defines=d, loops={fn: loops},
+                          cbmc_flags=["--unwindset", uw, "--unwinding-assertions"],
+                          kind="proof", functions=[fn], replayable=False,
+                          domain="%s %s, %s, %s: enforced function contract + row-loop invariant: ANY width <= 2^20, any x offsets <= 2^10, every pixel "
+                                 "value, one row (height 1, y 0: the outer stride walk runs once); %s; assigns: destination pixels only"
+                                 % (op, sfmt or "solid", mfmt or "-", dfmt,
+                                    "ghost pixel, field of channel %d == NARROW (C01 spec (WIDEN src, WIDEN mask, WIDEN dest))" % ch if ch < 4 else
+                                    "frame: ghost position outside [dest_x, dest_x + width) incl. the guard pixel unchanged"),
+                          assumptions=(["%s: _pixman_image_get_solid replaced by a stub returning the nondeterministic colour" % fn] if sfmt is None else [])
+                                      + ["rowD.*: one row (height == 1, y == 0), rowstride <= 2^22, width <= 2^20, x offsets <= 2^10"],
+                          timeout=max(900, 5 * RD_MEASURED.get(name, 0)), min_props=10))
+    return js
+
+
+# ---- (3d) rotation blitters (harness/C02/fst_rotate.c): suffix -> (pixel type, pixels per 64-byte tile)
+ROT = {"8888": ("uint32_t", 16), "565": ("uint16_t", 32), "8": ("uint8_t", 64)}
+
+
+def rotate_jobs(tier):
+    js = []
+    for suffix, (pix, tile) in ROT.items():
+        for angle in (90, 270):
+            # destination x = tile - 1: one leading pixel up to the 64-byte boundary, one aligned tile, one trailing pixel
+            for tag, dx, w, h in (("tiles", tile - 1, tile + 2, 1), ("small", 1, 3, 3)):
+                if tag == "tiles" and suffix != "8888":
+                    continue    # 34- / 66-pixel rows (565 / 8): the symbolic 64-byte phase makes symex unroll every tile loop to the row width; not measured
+                for ch in (0, 4):
+                    if tier == "quick" and not (suffix == "8888" and tag == "tiles" and ch == 0 and angle == 90):
+                        continue
+                    if ch == 4 and tag == "small":
+                        continue
+                    fn = "fast_composite_rotate_%d_%s" % (angle, suffix)
+                    n = max((dx + w + 4) * (h + 1), (h + 6) * (w + 2)) + 4
+                    js.append(Job("rotate.%s.%s.%s" % (fn, tag, "pixel" if ch == 0 else "frame"), "C02/fst_rotate.c",
+                                  defines={"VC_ANGLE": angle, "VC_SUFFIX": suffix, "VC_PIX": pix, "VC_W": w, "VC_H": h, "VC_DX": dx, "VC_CH": ch},
+                                  unwind=w + 3, cbmc_flags=PC + ["--unwindset", ",".join("harness.%d:%d" % (i, n) for i in range(8))],
+                                  kind="bounded", extra_sources=RL,
+                                  bound="%d x %d rectangle, destination x %d (64-byte phase fixed: %s)" % (w, h, dx,
+                                        "1 leading pixel, one aligned tile of %d, 1 trailing pixel" % tile if tag == "tiles" else "inside one tile"),
+                                  functions=[fn, "blt_rotated_%d_%s" % (angle, suffix), "blt_rotated_%d_trivial_%s" % (angle, suffix)],
+                                  domain="SRC, %s pixels, rotation by %d degrees with any translation / src_x / src_y whose samples lie inside the source "
+                                         "(FAST_PATH_SAMPLES_COVER_CLIP_NEAREST), every pixel value; %s" % (pix, angle,
+                                         "ghost pixel (x, y): destination pixel == the source pixel selected by the nearest rule for the rotated pixel centre" if ch == 0
+                                         else "frame: destination outside the rectangle and the source unchanged"),
+                                  assumptions=["rotate.*: |src_x|, |src_y| <= 1000, |tx|, |ty| <= 2^28 (16.16), sample positions inside the source image (the flag the table entry requires)"],
+                                  timeout=900, min_props=2))
+    return js
+
+
+# ---- (3e) per-pixel operator of the nearest-neighbour scanline helpers (harness/C02/fst_nearest.c)
+# (scale_func_name of the FAST_NEAREST instance | None = the hand-unrolled 565 copy, op, source format, destination format, channels, width)
+NEAR = [("8888_8888_cover", "SRC", "a8r8g8b8", "a8r8g8b8", (5,), 3), ("8888_8888_none", "SRC", "a8r8g8b8", "a8r8g8b8", (5,), 3),
+        ("8888_8888_pad", "SRC", "a8r8g8b8", "a8r8g8b8", (5,), 3),
+        ("x888_8888_cover", "SRC", "x8r8g8b8", "a8r8g8b8", (5,), 3), ("x888_8888_pad", "SRC", "x8r8g8b8", "a8r8g8b8", (5,), 3),
+        ("8888_565_cover", "SRC", "a8r8g8b8", "r5g6b5", (5,), 3), ("8888_565_none", "SRC", "a8r8g8b8", "r5g6b5", (5,), 3),
+        ("8888_565_pad", "SRC", "a8r8g8b8", "r5g6b5", (5,), 3),
+        (None, "SRC", "r5g6b5", "r5g6b5", (5,), 7),
+        ("8888_8888_cover", "OVER", "a8r8g8b8", "a8r8g8b8", (0, 1, 2, 3), 3), ("8888_8888_none", "OVER", "a8r8g8b8", "a8r8g8b8", (1,), 3),
+        ("8888_8888_pad", "OVER", "a8r8g8b8", "a8r8g8b8", (1,), 3),
+        ("8888_565_cover", "OVER", "a8r8g8b8", "r5g6b5", (0, 1, 2), 3), ("8888_565_none", "OVER", "a8r8g8b8", "r5g6b5", (1,), 3),
+        ("8888_565_pad", "OVER", "a8r8g8b8", "r5g6b5", (1,), 3)]
+NEAR_QUICK = {"nearest.scaled_nearest_scanline_8888_565_cover_OVER.k1.ch1", "nearest.scaled_nearest_scanline_565_565_SRC.ch5"}
+
+
+def nearest_fn(name, op):
+    return "scaled_nearest_scanline_565_565_SRC" if name is None else "scaled_nearest_scanline_%s_%s" % (name, op)
+
+
+def nearest_jobs(tier):
+    js = []
+    for name, op, sfmt, dfmt, chans, w in NEAR:
+        fn = nearest_fn(name, op)
+        for ch in tuple(chans) + (4,):
+            # OVER (arithmetic): one query per pixel of the scanline; SRC (copy / format conversion) and frame: ghost pixel symbolic
+            for k in ((0, 1, 2) if (op == "OVER" and ch < 4 and (name or "").endswith("cover")) else (1,) if (op == "OVER" and ch < 4) else (None,)):
+                jn = "nearest.%s%s.ch%d" % (fn, "" if k is None else ".k%d" % k, ch)
+                if tier == "quick" and jn not in NEAR_QUICK:
+                    continue
+                d = {"VC_FN": fn, "VC_OP": SPOP[op], "VC_MODE": 0, "VC_CH": ch, "VC_W": w, "VC_SFMT": sfmt, "VC_DFMT": dfmt}
+                if k is not None:
+                    d["VC_K"] = k
+                js.append(Job(jn, "C02/fst_nearest.c", defines=d, unwind=max(w + 3, 10), cbmc_flags=PC, kind="bounded", extra_sources=RL,
+                              bound="scanline of %d pixels (main loop + tail), 8 source pixels%s" % (w, "" if k is None else ", ghost pixel %d" % k),
+                              functions=[fn],
+                              domain="%s %s -> %s: every vx >= 0 and unit_x >= 0 whose samples lie inside the 8 source pixels, every pixel value; %s"
+                                     % (op, sfmt, dfmt, "field of channel %d of dst[k] == NARROW (C01 spec (WIDEN src[(vx + k unit_x) >> 16], -, WIDEN dst[k]))" % ch if ch < 4
+                                        else "frame: guard pixels around the scanline and the source unchanged" if ch == 4 else
+                                        "all defined bits of dst[k] == NARROW_PIX (WIDEN_PIX (src[(vx + k unit_x) >> 16]))"),
+                              assumptions=["nearest.*: scanline helper only (the MAINLOOP geometry belongs to C08); unit_x >= 0, samples inside the source (what the COVER / PAD / NONE main loops guarantee for the span they pass)"],
+                              timeout=900, min_props=2))
+    return js
+
+
+# ---- (3f) fast_composite_tiled_repeat (harness/C02/fst_tiled.c): (tag, pixel type, format, source w x h, composite w x h)
+TILED = [("narrow32", "uint32_t", "PIXMAN_a8r8g8b8", 3, 2, 7, 3), ("narrow16", "uint16_t", "PIXMAN_r5g6b5", 3, 2, 7, 2),
+         ("narrow8", "uint8_t", "PIXMAN_a8", 5, 2, 7, 2), ("wide32", "uint32_t", "PIXMAN_a8r8g8b8", 32, 1, 40, 2)]
+
+
+def tiled_jobs(tier):
+    js = []
+    for tag, pix, fmt, sw, sh, w, h in TILED:
+        for ch in (0, 4):
+            if tier == "quick" and not (tag == "narrow32" and ch == 0):
+                continue
+            n = max((w + 6) * (h + 1), (sw + 4) * sh) + 4
+            js.append(Job("tiled.fast_composite_tiled_repeat.%s.%s" % (tag, "pixel" if ch == 0 else "frame"), "C02/fst_tiled.c",
+                          defines={"VC_PIX": pix, "VC_FMT": fmt, "VC_SW": sw, "VC_SH": sh, "VC_W": w, "VC_H": h, "VC_CH": ch},
+                          unwind=4, cbmc_flags=PC + ["--unwindset", ",".join(["harness.%d:%d" % (i, n) for i in range(8)] +
+                                ["fast_composite_tiled_repeat.%d:%d" % (i, b) for i, b in
+                                 ((0, 32 // sw + 4), (2, sw + 2), (5, sw + 2), (8, sw + 2), (3, 32 // sw + 4), (6, 32 // sw + 4), (9, 32 // sw + 4),
+                                  (10, 5), (11, h + 2))] + ["vc_blit.0:%d,vc_blit.1:%d" % (w + 2, h + 2)])],
+                          kind="bounded", extra_sources=RL,
+                          bound="source %d x %d (%s), composite %d x %d" % (sw, sh, "narrower than 32: extended into the stack buffer" if sw < 32 else "32 wide: used in place", w, h),
+                          functions=["fast_composite_tiled_repeat"],
+                          domain="SRC, %s, NORMAL repeat, any src_x / src_y in +-10^5, every pixel value, ghost pixel (x, y): destination pixel == source pixel "
+                                 "((src_x + x) mod w, (src_y + y) mod h); every span handed to the inner routine lies inside the image handed to it" % fmt,
+                          assumptions=["tiled.*: the routine returned by the inner lookup is replaced by a reference SRC blit that demands spans inside its source and the destination rectangle; "
+                                       "_pixman_bits_image_init / _pixman_image_validate / _pixman_image_fini stubbed (temporary image header)"],
+                          timeout=900, min_props=3))
+    return js
+
+
+# ---- (2c) SSE2 scanline fetchers (harness/C02/fst_sse2_fetch.c): format -> pixels per vector body
+SFETCH = {"x8r8g8b8": 4, "r5g6b5": 8, "a8": 16}
+
+
+def sse2_fetch_jobs(tier):
+    js = []
+    for fmt, body in SFETCH.items():
+        for boff, w in ((3, body + 2), (0, body + 1), (2, 2 * body + 3)):
+            for ch in (0, 4):
+                if tier == "quick" and not (boff == 3 and ch == 0 and fmt == "r5g6b5"):
+                    continue
+                if ch == 4 and boff != 3:
+                    continue
+                fn = "sse2_fetch_" + fmt
+                js.append(Job("sse2fetch.%s.b%d.w%d.%s" % (fn, boff, w, "pixel" if ch == 0 else "frame"), "C02/fst_sse2_fetch.c",
+                              defines={"VC_FMT": fmt, "VC_W": w, "VC_BOFF": boff, "VC_CH": ch}, unwind=w + boff + 12, cbmc_flags=PC,
+                              kind="bounded", extra_sources=RL, object_bits=10,
+                              bound="width %d, buffer phase %d pixels (%d head pixel(s), %d vector bodies of %d, %d tail pixel(s)), source phase 1"
+                                    % (w, boff, (4 - boff) % 4, (w - (4 - boff) % 4) // body, body, (w - (4 - boff) % 4) % body),
+                              functions=[fn, "_pixman_implementation_create_sse2"],
+                              domain="%s: every pixel value, ghost pixel symbolic, any stride; %s" % (fmt,
+                                     "buffer[k] == WIDEN_PIX (raw pixel k); returns the buffer; bits advance by stride" if ch == 0 else "frame"),
+                              assumptions=MODEL_TRUST, timeout=900, min_props=4))
+    return js
+
+
 # ---------------------------------------------------------------- fast-path table scan (evidence)
+def table_entries(txt, table):
+    """the entries of one fast-path table as (macro, [args]) in source order.  Macro DEFINITIONS inside the initializer
+    (#define with continuation lines) are removed first; a brace entry may span several lines."""
+    m = re.search(r"static const pixman_fast_path_t %s\[\] =\s*\{(.*?)\n\};" % table, txt, re.S)
+    if not m:
+        return []
+    body = re.sub(r"^[ \t]*#[ \t]*define(?:\\\n|[^\n])*", "", m.group(1), flags=re.M)
+    body = re.sub(r"/\*.*?\*/", "", body, flags=re.S)
+    body = re.sub(r"^[ \t]*#[^\n]*", "", body, flags=re.M)
+    out = []
+    for e in re.finditer(r"([A-Z][A-Z0-9_]*FAST_PATH[A-Z0-9_]*)\s*\(([^()]*)\)|\{([^{}]*)\}", body):
+        if e.group(1):
+            out.append((e.group(1), [a.strip() for a in e.group(2).split(",") if a.strip()]))
+        else:
+            out.append(("{", [a.strip() for a in re.sub(r"\([^()]*\)", "", e.group(3)).split(",") if a.strip()]))
+    return out
+
+
+NEAREST_REPS = {"SIMPLE_NEAREST_FAST_PATH": ("cover", "none", "pad", "normal"), "SIMPLE_NEAREST_FAST_PATH_COVER": ("cover",),
+                "SIMPLE_NEAREST_FAST_PATH_NONE": ("none",), "SIMPLE_NEAREST_FAST_PATH_PAD": ("pad",), "SIMPLE_NEAREST_FAST_PATH_NORMAL": ("normal",)}
+
+
 def scan_tables():
-    """every entry of sse2_fast_paths / c_fast_paths in the source text, with the status this property gives its routine"""
+    """every entry of sse2_fast_paths / c_fast_paths in the source text, with the status this property gives its routine.
+    A status other than `unverified' is derived from the names of SCHEDULED thorough-tier jobs only."""
     out = {}
     proved_kernel = {"sse2_composite_over_8888_8888": "kernel proved (row = sse2_combine_over_u: kernel proved, row bounded)",
                      "sse2_composite_add_8888_8888": "kernel proved (row = sse2_combine_add_u kernels)"}
     other = {"sse2_composite_copy_area": "C19 (sse2_blt: blt.sse2.* jobs of property C19)"}
-    # routine -> operand formats the row jobs use; only routines with at least one scheduled pixel (not only frame) job count
     sched = scheduled_row_jobs()
     fmts_of = {}
     for k in FP:
@@ -361,6 +666,8 @@ def scan_tables():
         fmts_of[fn] = "; ".join("%s, -, %s" % (v[2] or "solid", v[4]) for v in vs)
     for fn, v in S2C.items():
         fmts_of[fn] = "%s, %s, %s" % (v[2], v[3] or "-", v[4])
+    for fn, v in RD.items():
+        fmts_of.setdefault(fn, "%s, %s, %s" % (v[2] or "solid", v[3] or "-", v[4]))
     row_bounded = {}
     harness_only = set()
     for fn, fm in fmts_of.items():
@@ -374,20 +681,29 @@ def scan_tables():
             txt = open(os.path.join(REPO, "pixman", fname)).read()
         except OSError:
             continue
-        m = re.search(r"static const pixman_fast_path_t %s\[\] =\s*\{(.*?)\n\};" % table, txt, re.S)
-        if not m:
-            continue
         ents = []
-        for e in re.finditer(r"^\s*(PIXMAN_STD_FAST_PATH(?:_CA)?|SIMPLE_NEAREST[A-Z_]*FAST_PATH[A-Z_]*|SIMPLE_BILINEAR[A-Z_]*FAST_PATH[A-Z_]*|SIMPLE_ROTATE_FAST_PATH|FAST_NEAREST[A-Z_]*|FAST_BILINEAR[A-Z_]*|\{)\s*\(?([^\n]*)", m.group(1), re.M):
-            args = [a for a in (a.strip(" (){},;") for a in e.group(2).split(",")) if a]
+        for macro, args in table_entries(txt, table):
             if not args:
                 continue
-            macro = e.group(1)
-            fn = args[-1] if macro.startswith("PIXMAN_STD") else macro + ":" + "_".join(a for a in args if a)
+            jobs_of = []
+            if macro.startswith("PIXMAN_STD"):
+                fn = args[-1]
+            elif macro == "{":
+                fns = [a for a in args if re.fullmatch(r"(fast|sse2)_composite_\w+", a)]
+                fn = fns[-1] if fns else "(terminator)" if args[0] == "PIXMAN_OP_NONE" else macro + ":" + "_".join(args)
+            elif macro == "NEAREST_FAST_PATH":
+                fn = "fast_composite_scaled_nearest"
+            else:
+                fn = macro + ":" + "_".join(args)
             ent = {"entry": (macro + " " + ", ".join(args)).strip(), "routine": fn}
+            if fn == "(terminator)":
+                ent["status"] = "table terminator (no routine)"
+                ents.append(ent)
+                continue
             if fn in row_bounded:
                 names, fmts = row_bounded[fn]
-                st = (proved_kernel[fn] + "; " if fn in proved_kernel else "") + "row bounded"
+                proofs = [n for n in names if n.startswith("rowD.") and not n.endswith(".ch4")]
+                st = (proved_kernel[fn] + "; " if fn in proved_kernel else "") + ("row proved for any width (loop contract); " if proofs else "") + "row bounded"
                 ent["jobs"] = names
                 # which obligations the scheduled jobs carry: chN = pixel channel N (0=B 1=G 2=R 3=A), ch5 = all fields (SRC), ch4 = frame
                 ent["channels_scheduled"] = sorted({n.rsplit(".ch", 1)[1] for n in names})
@@ -404,11 +720,47 @@ def scan_tables():
                 st = other[fn]
             elif fn in harness_only:
                 st = "unverified (harness mode exists in fastpath_fmt.c / sse2_composite.c, no pixel job scheduled: no measured passing run)"
+            elif macro in NEAREST_REPS and table == "c_fast_paths" and len(args) == 4:
+                op, func = args[0], args[3]
+                inst = ["scaled_nearest_scanline_%s_%s_%s" % (func, r, op) for r in NEAREST_REPS[macro]]
+                if func == "565_565":     # cover / none / pad instances use the hand-unrolled scanline
+                    inst = ["scaled_nearest_scanline_565_565_SRC" if not i.startswith("scaled_nearest_scanline_565_565_normal") else i for i in inst]
+                have = [i for i in inst if any(not n.endswith(".ch4") for n in sched.get(i, []))]
+                jobs_of = sorted({n for i in have for n in sched.get(i, [])})
+                if have:
+                    st = ("scanline kernel bounded for %d of %d repeat instances (%s); main loop (FAST_NEAREST_MAINLOOP: vx set-up, repeat, stride walk) not covered by C02"
+                          % (len(set(have)), len(inst), ", ".join(sorted(set(have)))))
+                    ent["jobs"] = jobs_of
+                else:
+                    st = "unverified"
+            elif macro == "SIMPLE_ROTATE_FAST_PATH" and len(args) == 4:
+                fns = ["fast_composite_rotate_%d_%s" % (a, args[3]) for a in (90, 270)]
+                have = [f for f in fns if any(n.endswith(".pixel") for n in sched.get(f, []))]
+                if len(have) == 2:
+                    st = "rectangle bounded (both entries of the macro: rotate 90 and 270)"
+                    ent["jobs"] = sorted({n for f in have for n in sched.get(f, [])})
+                else:
+                    st = "unverified"
+            elif any(n.endswith(".pixel") for n in sched.get(fn, [])):
+                st = "rectangle bounded (inner routine replaced by a reference blit)"
+                ent["jobs"] = sorted(sched.get(fn, []))
             else:
                 st = "unverified"
             ent["status"] = st
             ents.append(ent)
         out[table] = ents
+    summ = {}
+    for table, ents in out.items():
+        c = {}
+        for e in ents:
+            k = re.sub(r" for \d+ of \d+ repeat instances.*", "", e["status"].split(";")[0].split(" (")[0])
+            if e["status"].startswith("unverified (harness"):
+                k = "unverified (harness mode exists, not scheduled)"
+            if "row proved for any width" in e["status"]:
+                k = "row proved for any width + row bounded"
+            c[k] = c.get(k, 0) + 1
+        summ[table] = dict(sorted(c.items()), total=len(ents))
+    out["summary"] = summ
     return out
 
 
@@ -419,13 +771,13 @@ def table_job():
         for name in ("sse2_fast_paths", "c_fast_paths"):
             ents = t.get(name, [])
             obl.append(("tables.%s.found_and_non_empty" % name, len(ents) > 10, "%d entries" % len(ents)))
-            n_un = sum(1 for e in ents if e["status"] == "unverified")
+            n_un = sum(1 for e in ents if e["status"].startswith("unverified"))
             obl.append(("tables.%s.status_listed" % name, True, "%d entries: %d unverified, %d with a status" % (len(ents), n_un, len(ents) - n_un)))
-        with open(os.path.join(VERIF, "evidence", "C02_tables.json"), "w") as f:
+        with open(os.path.join(os.environ.get("VERIF_EVIDENCE_DIR") or os.path.join(VERIF, "evidence"), "C02_tables.json"), "w") as f:
             json.dump(t, f, indent=1)
         return obl
     return PyJob("tables.scan", fn, kind="bounded", bound="source-text scan, no semantic claim", functions=[], min_props=4,
-                 domain="every entry of sse2_fast_paths and c_fast_paths with status {kernel proved, row bounded, C19, unverified}, the jobs and the operand formats they use: evidence/C02_tables.json",
+                 domain="every entry of sse2_fast_paths and c_fast_paths with status {kernel proved, row bounded, rectangle bounded, scanline kernel bounded, C19, unverified, terminator}, the jobs and the operand formats they use: evidence/C02_tables.json",
                  timeout=60)
 
 
@@ -532,6 +884,240 @@ MEASURED = {
     "sse2c.sse2_composite_src_x888_8888.ch3": 112,
     "sse2c.sse2_composite_src_x888_8888.ch4": 84,
 }
+# measured in the extension session `fst' (wall seconds of one run on the shared machine, >= CPU seconds)
+MEASURED_FST = {
+    "fast.fast_composite_add_n_8888_8888_ca.x012.k0.ch1": 48,
+    "fast.fast_composite_add_n_8888_8888_ca.x012.k1.ch0": 41,
+    "fast.fast_composite_add_n_8888_8888_ca.x012.k1.ch1": 45,
+    "fast.fast_composite_add_n_8888_8888_ca.x012.k1.ch2": 36,
+    "fast.fast_composite_add_n_8888_8888_ca.x012.k1.ch3": 37,
+    "fast.fast_composite_add_n_8888_8888_ca.x012.k2.ch1": 44,
+    "fast.fast_composite_add_n_8_8.x012.k0.ch3": 25,
+    "fast.fast_composite_add_n_8_8.x012.k1.ch3": 25,
+    "fast.fast_composite_add_n_8_8.x012.k2.ch3": 29,
+    "fast.fast_composite_in_n_8_8.x012.k0.ch3": 79,
+    "fast.fast_composite_in_n_8_8.x012.k1.ch3": 84,
+    "fast.fast_composite_in_n_8_8.x012.k2.ch3": 84,
+    "fast.fast_composite_over_n_1_0565.ch0": 38,
+    "fast.fast_composite_over_n_1_0565.ch2": 50,
+    "fast.fast_composite_over_n_1_8888.ch0": 62,
+    "fast.fast_composite_over_n_1_8888.ch2": 68,
+    "fast.fast_composite_over_n_8888_0565_ca.ch4": 30,
+    "fast.fast_composite_over_n_8888_0565_ca.x012.k0.ch1": 77,
+    "fast.fast_composite_over_n_8888_0565_ca.x012.k1.ch0": 57,
+    "fast.fast_composite_over_n_8888_0565_ca.x012.k1.ch1": 74,
+    "fast.fast_composite_over_n_8888_0565_ca.x012.k1.ch2": 64,
+    "fast.fast_composite_over_n_8888_0565_ca.x012.k2.ch1": 80,
+    "fast.fast_composite_over_n_8888_8888_ca.ch4": 44,
+    "fast.fast_composite_over_n_8888_8888_ca.x012.k0.ch1": 151,
+    "fast.fast_composite_over_n_8888_8888_ca.x012.k1.ch0": 156,
+    "fast.fast_composite_over_n_8888_8888_ca.x012.k1.ch1": 145,
+    "fast.fast_composite_over_n_8888_8888_ca.x012.k1.ch2": 130,
+    "fast.fast_composite_over_n_8888_8888_ca.x012.k1.ch3": 126,
+    "fast.fast_composite_over_n_8888_8888_ca.x012.k2.ch1": 126,
+    "fast.fast_composite_over_n_8_0565.ch4": 24,
+    "fast.fast_composite_over_n_8_0565.x012.k0.ch1": 35,
+    "fast.fast_composite_over_n_8_0565.x012.k1.ch0": 34,
+    "fast.fast_composite_over_n_8_0565.x012.k1.ch1": 35,
+    "fast.fast_composite_over_n_8_0565.x012.k1.ch2": 32,
+    "fast.fast_composite_over_n_8_0565.x012.k2.ch1": 33,
+    "fast.fast_composite_over_n_8_0888.x012.k0.ch1": 45,
+    "fast.fast_composite_over_n_8_0888.x012.k1.ch0": 53,
+    "fast.fast_composite_over_n_8_0888.x012.k1.ch1": 54,
+    "fast.fast_composite_over_n_8_0888.x012.k1.ch2": 56,
+    "fast.fast_composite_over_n_8_0888.x012.k2.ch1": 48,
+    "fast.fast_composite_over_n_8_8888.x012.k0.ch1": 33,
+    "fast.fast_composite_over_n_8_8888.x012.k1.ch0": 33,
+    "fast.fast_composite_over_n_8_8888.x012.k1.ch1": 41,
+    "fast.fast_composite_over_n_8_8888.x012.k1.ch2": 51,
+    "fast.fast_composite_over_n_8_8888.x012.k2.ch1": 43,
+    "fast.fast_composite_over_x888_8_8888.ch4": 37,
+    "fast.fast_composite_over_x888_8_8888.x012.k0.ch1": 26,
+    "fast.fast_composite_over_x888_8_8888.x012.k1.ch0": 29,
+    "fast.fast_composite_over_x888_8_8888.x012.k1.ch1": 27,
+    "fast.fast_composite_over_x888_8_8888.x012.k1.ch2": 29,
+    "fast.fast_composite_over_x888_8_8888.x012.k1.ch3": 30,
+    "fast.fast_composite_over_x888_8_8888.x012.k2.ch1": 30,
+    "nearest.scaled_nearest_scanline_565_565_SRC.ch4": 4,
+    "nearest.scaled_nearest_scanline_565_565_SRC.ch5": 5,
+    "nearest.scaled_nearest_scanline_8888_565_cover_OVER.ch4": 3,
+    "nearest.scaled_nearest_scanline_8888_565_cover_OVER.k0.ch0": 8,
+    "nearest.scaled_nearest_scanline_8888_565_cover_OVER.k0.ch1": 11,
+    "nearest.scaled_nearest_scanline_8888_565_cover_OVER.k0.ch2": 7,
+    "nearest.scaled_nearest_scanline_8888_565_cover_OVER.k1.ch0": 8,
+    "nearest.scaled_nearest_scanline_8888_565_cover_OVER.k1.ch1": 10,
+    "nearest.scaled_nearest_scanline_8888_565_cover_OVER.k1.ch2": 7,
+    "nearest.scaled_nearest_scanline_8888_565_cover_OVER.k2.ch0": 7,
+    "nearest.scaled_nearest_scanline_8888_565_cover_OVER.k2.ch1": 10,
+    "nearest.scaled_nearest_scanline_8888_565_cover_OVER.k2.ch2": 8,
+    "nearest.scaled_nearest_scanline_8888_565_cover_SRC.ch4": 3,
+    "nearest.scaled_nearest_scanline_8888_565_cover_SRC.ch5": 4,
+    "nearest.scaled_nearest_scanline_8888_565_none_OVER.ch4": 3,
+    "nearest.scaled_nearest_scanline_8888_565_none_OVER.k1.ch1": 11,
+    "nearest.scaled_nearest_scanline_8888_565_none_SRC.ch4": 3,
+    "nearest.scaled_nearest_scanline_8888_565_none_SRC.ch5": 4,
+    "nearest.scaled_nearest_scanline_8888_565_pad_OVER.ch4": 5,
+    "nearest.scaled_nearest_scanline_8888_565_pad_OVER.k1.ch1": 11,
+    "nearest.scaled_nearest_scanline_8888_565_pad_SRC.ch4": 3,
+    "nearest.scaled_nearest_scanline_8888_565_pad_SRC.ch5": 4,
+    "nearest.scaled_nearest_scanline_8888_8888_cover_OVER.ch4": 3,
+    "nearest.scaled_nearest_scanline_8888_8888_cover_OVER.k0.ch0": 15,
+    "nearest.scaled_nearest_scanline_8888_8888_cover_OVER.k0.ch1": 16,
+    "nearest.scaled_nearest_scanline_8888_8888_cover_OVER.k0.ch2": 17,
+    "nearest.scaled_nearest_scanline_8888_8888_cover_OVER.k0.ch3": 12,
+    "nearest.scaled_nearest_scanline_8888_8888_cover_OVER.k1.ch0": 18,
+    "nearest.scaled_nearest_scanline_8888_8888_cover_OVER.k1.ch1": 17,
+    "nearest.scaled_nearest_scanline_8888_8888_cover_OVER.k1.ch2": 18,
+    "nearest.scaled_nearest_scanline_8888_8888_cover_OVER.k1.ch3": 11,
+    "nearest.scaled_nearest_scanline_8888_8888_cover_OVER.k2.ch0": 18,
+    "nearest.scaled_nearest_scanline_8888_8888_cover_OVER.k2.ch1": 18,
+    "nearest.scaled_nearest_scanline_8888_8888_cover_OVER.k2.ch2": 16,
+    "nearest.scaled_nearest_scanline_8888_8888_cover_OVER.k2.ch3": 11,
+    "nearest.scaled_nearest_scanline_8888_8888_cover_SRC.ch4": 3,
+    "nearest.scaled_nearest_scanline_8888_8888_cover_SRC.ch5": 4,
+    "nearest.scaled_nearest_scanline_8888_8888_none_OVER.ch4": 3,
+    "nearest.scaled_nearest_scanline_8888_8888_none_OVER.k1.ch1": 15,
+    "nearest.scaled_nearest_scanline_8888_8888_none_SRC.ch4": 3,
+    "nearest.scaled_nearest_scanline_8888_8888_none_SRC.ch5": 4,
+    "nearest.scaled_nearest_scanline_8888_8888_pad_OVER.ch4": 4,
+    "nearest.scaled_nearest_scanline_8888_8888_pad_OVER.k1.ch1": 15,
+    "nearest.scaled_nearest_scanline_8888_8888_pad_SRC.ch4": 3,
+    "nearest.scaled_nearest_scanline_8888_8888_pad_SRC.ch5": 4,
+    "nearest.scaled_nearest_scanline_x888_8888_cover_SRC.ch4": 3,
+    "nearest.scaled_nearest_scanline_x888_8888_cover_SRC.ch5": 4,
+    "nearest.scaled_nearest_scanline_x888_8888_pad_SRC.ch4": 3,
+    "nearest.scaled_nearest_scanline_x888_8888_pad_SRC.ch5": 4,
+    "rotate.fast_composite_rotate_270_565.small.pixel": 39,
+    "rotate.fast_composite_rotate_270_8.small.pixel": 30,
+    "rotate.fast_composite_rotate_270_8888.small.pixel": 53,
+    "rotate.fast_composite_rotate_270_8888.tiles.frame": 253,
+    "rotate.fast_composite_rotate_270_8888.tiles.pixel": 367,
+    "rotate.fast_composite_rotate_90_565.small.pixel": 37,
+    "rotate.fast_composite_rotate_90_8.small.pixel": 35,
+    "rotate.fast_composite_rotate_90_8888.small.pixel": 64,
+    "rotate.fast_composite_rotate_90_8888.tiles.frame": 301,
+    "rotate.fast_composite_rotate_90_8888.tiles.pixel": 376,
+    "sse2c.sse2_composite_add_8888_8888.ch0": 66,
+    "sse2c.sse2_composite_add_8888_8888.ch2": 77,
+    "sse2c.sse2_composite_add_8888_8888.ch3": 85,
+    "sse2c.sse2_composite_add_n_8888.ch0": 58,
+    "sse2c.sse2_composite_add_n_8888.ch2": 58,
+    "sse2c.sse2_composite_add_n_8888.ch3": 49,
+    "sse2c.sse2_composite_add_n_8888_8888_ca.ch4": 42,
+    "sse2c.sse2_composite_add_n_8888_8888_ca.k2.ch1": 46,
+    "sse2c.sse2_composite_add_n_8_8.ch4": 87,
+    "sse2c.sse2_composite_add_n_8_8.k0.ch3": 200,
+    "sse2c.sse2_composite_add_n_8_8.k17.ch3": 201,
+    "sse2c.sse2_composite_add_n_8_8.k8.ch3": 198,
+    "sse2c.sse2_composite_add_n_8_8888.ch4": 36,
+    "sse2c.sse2_composite_add_n_8_8888.k0.ch1": 60,
+    "sse2c.sse2_composite_add_n_8_8888.k0.ch3": 61,
+    "sse2c.sse2_composite_add_n_8_8888.k2.ch1": 62,
+    "sse2c.sse2_composite_add_n_8_8888.k2.ch3": 60,
+    "sse2c.sse2_composite_add_n_8_8888.k5.ch1": 62,
+    "sse2c.sse2_composite_add_n_8_8888.k5.ch3": 62,
+    "sse2c.sse2_composite_in_8_8.k0.ch3": 159,
+    "sse2c.sse2_composite_in_8_8.k17.ch3": 153,
+    "sse2c.sse2_composite_in_n_8.ch4": 83,
+    "sse2c.sse2_composite_in_n_8.k0.ch3": 195,
+    "sse2c.sse2_composite_in_n_8.k17.ch3": 162,
+    "sse2c.sse2_composite_in_n_8.k8.ch3": 177,
+    "sse2c.sse2_composite_in_n_8_8.ch4": 96,
+    "sse2c.sse2_composite_in_n_8_8.k17.ch3": 321,
+    "sse2c.sse2_composite_in_n_8_8.k8.ch3": 818,
+    "sse2c.sse2_composite_over_8888_0565.ch0": 324,
+    "sse2c.sse2_composite_over_8888_0565.ch1": 357,
+    "sse2c.sse2_composite_over_8888_0565.ch2": 317,
+    "sse2c.sse2_composite_over_8888_8888.ch0": 191,
+    "sse2c.sse2_composite_over_8888_8888.ch2": 190,
+    "sse2c.sse2_composite_over_8888_8888.ch3": 194,
+    "sse2c.sse2_composite_over_8888_8888_8888.ch4": 68,
+    "sse2c.sse2_composite_over_8888_8888_8888.k2.ch1": 115,
+    "sse2c.sse2_composite_over_8888_8_8888.ch4": 68,
+    "sse2c.sse2_composite_over_8888_8_8888.k0.ch1": 97,
+    "sse2c.sse2_composite_over_8888_8_8888.k0.ch3": 145,
+    "sse2c.sse2_composite_over_8888_8_8888.k2.ch1": 107,
+    "sse2c.sse2_composite_over_8888_8_8888.k2.ch3": 209,
+    "sse2c.sse2_composite_over_8888_8_8888.k5.ch1": 235,
+    "sse2c.sse2_composite_over_8888_8_8888.k5.ch3": 259,
+    "sse2c.sse2_composite_over_8888_n_8888.ch4": 69,
+    "sse2c.sse2_composite_over_8888_n_8888.k2.ch1": 268,
+    "sse2c.sse2_composite_over_n_0565.ch0": 183,
+    "sse2c.sse2_composite_over_n_0565.ch2": 192,
+    "sse2c.sse2_composite_over_n_0565.ch4": 98,
+    "sse2c.sse2_composite_over_n_8888.ch0": 164,
+    "sse2c.sse2_composite_over_n_8888.ch2": 163,
+    "sse2c.sse2_composite_over_n_8888_0565_ca.ch4": 152,
+    "sse2c.sse2_composite_over_n_8888_8888_ca.ch4": 51,
+    "sse2c.sse2_composite_over_n_8888_8888_ca.k2.ch1": 337,
+    "sse2c.sse2_composite_over_n_8_0565.ch4": 152,
+    "sse2c.sse2_composite_over_n_8_0565.k4.ch1": 281,
+    "sse2c.sse2_composite_over_n_8_8888.k0.ch1": 108,
+    "sse2c.sse2_composite_over_n_8_8888.k0.ch3": 274,
+    "sse2c.sse2_composite_over_n_8_8888.k2.ch1": 224,
+    "sse2c.sse2_composite_over_n_8_8888.k2.ch3": 89,
+    "sse2c.sse2_composite_over_n_8_8888.k5.ch1": 121,
+    "sse2c.sse2_composite_over_n_8_8888.k5.ch3": 152,
+    "sse2c.sse2_composite_over_pixbuf_0565.ch4": 149,
+    "sse2c.sse2_composite_over_pixbuf_0565.k4.ch0": 168,
+    "sse2c.sse2_composite_over_pixbuf_0565.k4.ch1": 207,
+    "sse2c.sse2_composite_over_pixbuf_8888.ch4": 59,
+    "sse2c.sse2_composite_over_pixbuf_8888.k2.ch0": 245,
+    "sse2c.sse2_composite_over_pixbuf_8888.k2.ch1": 111,
+    "sse2c.sse2_composite_over_reverse_n_8888.ch0": 118,
+    "sse2c.sse2_composite_over_reverse_n_8888.ch2": 112,
+    "sse2c.sse2_composite_over_reverse_n_8888.ch3": 113,
+    "sse2c.sse2_composite_over_reverse_n_8888.ch4": 39,
+    "sse2c.sse2_composite_over_x888_8_8888.ch4": 81,
+    "sse2c.sse2_composite_over_x888_8_8888.k0.ch1": 99,
+    "sse2c.sse2_composite_over_x888_8_8888.k2.ch1": 158,
+    "sse2c.sse2_composite_over_x888_n_8888.ch4": 47,
+    "sse2c.sse2_composite_over_x888_n_8888.k2.ch1": 418,
+    "sse2c.sse2_composite_src_n_8_8888.ch4": 36,
+    "sse2c.sse2_composite_src_n_8_8888.k0.ch1": 46,
+    "sse2c.sse2_composite_src_n_8_8888.k0.ch3": 52,
+    "sse2c.sse2_composite_src_n_8_8888.k2.ch1": 47,
+    "sse2c.sse2_composite_src_n_8_8888.k2.ch3": 48,
+    "sse2c.sse2_composite_src_n_8_8888.k5.ch1": 49,
+    "sse2c.sse2_composite_src_n_8_8888.k5.ch3": 44,
+    "sse2fetch.sse2_fetch_a8.b3.w18.frame": 16,
+    "sse2fetch.sse2_fetch_a8.b3.w18.pixel": 20,
+    "sse2fetch.sse2_fetch_r5g6b5.b3.w10.frame": 21,
+    "sse2fetch.sse2_fetch_r5g6b5.b3.w10.pixel": 18,
+    "sse2fetch.sse2_fetch_x8r8g8b8.b3.w6.frame": 8,
+    "sse2fetch.sse2_fetch_x8r8g8b8.b3.w6.pixel": 13,
+    "tiled.fast_composite_tiled_repeat.narrow16.frame": 126,
+    "tiled.fast_composite_tiled_repeat.narrow16.pixel": 138,
+    "tiled.fast_composite_tiled_repeat.narrow32.frame": 240,
+    "tiled.fast_composite_tiled_repeat.narrow32.pixel": 270,
+    "tiled.fast_composite_tiled_repeat.narrow8.frame": 130,
+    "tiled.fast_composite_tiled_repeat.narrow8.pixel": 163,
+}
+MEASURED.update(MEASURED_FST)
+
+
+def fst_keep(name):
+    """thorough-tier economy for the jobs measured in the extension session (MEASURED_FST; the jobs scheduled before are all kept):
+    every routine keeps its frame job, the green and alpha channel (one `ag' lane of the packed arithmetic each; channel 2 = one
+    `rb' lane for the masked C routines), every pixel class (head / body / tail, or every position of the 3-pixel row) for channel 1"""
+    if name not in MEASURED_FST:
+        return True
+    m = re.match(r"sse2c\.\w+?\.(?:k(\d+)\.)?ch(\d)$", name)
+    if m:
+        k, ch = m.group(1), int(m.group(2))
+        if ch == 4 or ch == 1 or (ch == 0 and "pixbuf" in name):     # pixbuf: channel 0 is where red and blue are swapped
+            return True
+        if k is None:
+            return ch == 3
+        return ch == 3 and k in ("2", "4", "8")
+    m = re.match(r"fast\.\w+?\.x\d+\.k(\d)\.ch(\d)$", name)
+    if m:
+        return not (m.group(2) == "0")
+    if name.startswith("tiled.") and name.endswith(".frame") and "narrow32" not in name:
+        return False
+    if name.startswith("rotate.") and name.endswith("270_8888.tiles.frame"):
+        return False
+    return True
 
 
 def measured_only(js):
@@ -539,22 +1125,44 @@ def measured_only(js):
         return js
     out = []
     for j in js:
-        if j.name in MEASURED:
+        if j.name in MEASURED and fst_keep(j.name):
             j.timeout = max(1800, int(12 * MEASURED[j.name]))
             out.append(j)
     return out
 
 
+# ---- extension `fst': job families added after the first pass; same rule: only jobs with a measured passing run are scheduled
+# (MEASURED), the quick tier runs the few named in QUICK_EXTRA
+QUICK_EXTRA = {
+    "fast.fast_composite_over_n_8_0565.x012.k1.ch1", "fast.fast_composite_over_x888_8_8888.x012.k1.ch1",
+    "nearest.scaled_nearest_scanline_8888_565_cover_OVER.k1.ch1", "nearest.scaled_nearest_scanline_565_565_SRC.ch5",
+    "sse2fetch.sse2_fetch_r5g6b5.b3.w10.pixel", "rotate.fast_composite_rotate_270_565.small.pixel",
+    "sse2c.sse2_composite_add_n_8_8888.k2.ch1",
+}
+
+
+def fst_jobs(tier):
+    js = measured_only(rowd_jobs("thorough") + rotate_jobs("thorough") + nearest_jobs("thorough") + tiled_jobs("thorough") +
+                       sse2_fetch_jobs("thorough"))
+    if tier == "quick":
+        js = [j for j in js if j.name in QUICK_EXTRA]
+    return js
+
+
 def scheduled_row_jobs():
-    """names of the row jobs scheduled in the thorough tier, per routine"""
+    """names of the row / rectangle / scanline jobs scheduled in the thorough tier, per routine"""
     by = {}
-    for j in fastpath_jobs("thorough") + measured_only(fastfmt_jobs("thorough") + sse2c_jobs("thorough")):
+    for j in fastpath_jobs("thorough") + measured_only(fastfmt_jobs("thorough") + sse2c_jobs("thorough")) + fst_jobs("thorough"):
         by.setdefault(j.functions[0], []).append(j.name)
     return by
 
 
 def jobs(tier):
     js = dispatch_jobs(tier) + sse2_jobs(tier) + fastpath_jobs(tier) + measured_only(fastfmt_jobs(tier) + sse2c_jobs(tier))
+    if tier == "quick":
+        have = {j.name for j in js}
+        js += [j for j in measured_only(fastfmt_jobs("thorough") + sse2c_jobs("thorough")) if j.name in QUICK_EXTRA and j.name not in have]
+    js += fst_jobs(tier)
     js.append(table_job())
     if os.path.exists(os.path.join(VERIF, "harness", "C02", "models_selftest.c")):
         js.append(selftest_job())
@@ -564,6 +1172,8 @@ def jobs(tier):
 META = {
     "level": "proof",
     "trusted_base": ["spec/spec_un8.h + spec_op.h (C01 spec)", "spec/spec_format.h (C10 literal format table, WIDEN / NARROW)",
+                     "spec/spec_fst.h (composition of the two for raw pixels: FST_POST); the geometric statements written in the harnesses "
+                     "fst_rotate.c (nearest sample of the rotated pixel centre), fst_tiled.c (source pixel modulo size), fst_nearest.c (sample at vx + k unit_x)",
                      "models/sse2_models_combine.h: Intel SDM lane semantics of the SSE2/SSSE3 builtins",
                      "CBMC memory model: objects are 16-byte aligned (offset 0); natively aligned(16) buffers"],
     "assumptions": [
@@ -572,15 +1182,23 @@ META = {
         "SSE2 masked / component-alpha kernels: only the subset listed in the thorough tier (each query 200-300 CPU s)",
         "row jobs (fast.* / sse2c.*): one row (height 1), width 3 (C) or one head pixel + one vector body + one tail pixel at a fixed 16-byte phase (SSE2); "
         "a routine registered for a8b8g8r8 / b5g6r5 / x-channel variants is checked with the a8r8g8b8 / r5g6b5 operands only (same code path, channel renaming)",
+        "masked row jobs (*.k<n>.*): x offsets and the ghost pixel are fixed per query; every pixel position of the row is a query for one channel, the middle / body pixel for the others",
+        "pixbuf entries: the request `source x8b8g8r8 and mask a8r8g8b8 on the same pixel buffer, OVER' is specified by the ordinary C01 equation with s = WIDEN_x8b8g8r8 (p), m = WIDEN_a8r8g8b8 (p)",
+        "sse2c.* masked pixel queries run with --slice-formula (cone of influence of the obligations; assumptions and the canary are kept)",
     ],
     "not_covered": ["MMX kernels (three inline-asm primitives need C bodies)", "SSSE3 bilinear fetcher", "sse2_combine_saturate_u (no C01 spec for SATURATE)",
-                    "row jobs with a mask whose colour channels chain two products (OVER / IN with an a8 or component-alpha mask: fast_composite_over_n_8_8888 "
-                    "colour channels, over_n_8_0565, over_n_8_0888, over_x888_8_8888, in_n_8_8, over_n_8888_8888_ca, over_n_8888_0565_ca and their sse2_composite_* "
-                    "counterparts): harness modes exist (fastpath_fmt.c, sse2_composite.c; C02_UNMEASURED=1 schedules them) but no query finished in the time "
-                    "available (> 7 CPU minutes each with fixed x offsets, > 60 minutes with symbolic offsets) -> not scheduled, listed `unverified' in C02_tables.json",
+                    "fast_composite_scaled_nearest (16 NEAREST_FAST_PATH entries), "
+                    "the NORMAL-repeat instances of the nearest scanline helpers, every SSE2 scaled nearest / bilinear entry (32 entries): `unverified' in C02_tables.json",
                     "vector body colour channels 0 and 2 of sse2_combine_{atop,atop_reverse,xor}_u (channel 1 at lane 2 and the alpha channel at every lane are checked)",
-                    "sse2_composite_over_pixbuf_*, sse2_composite_over_8888_8888_8888, every row of height > 1 (stride walk), widths beyond one vector body",
-                    "macro-generated scaled nearest/bilinear main loops",
+                    "every row of height > 1 (stride walk) of the fast.* / sse2c.* jobs, widths beyond one vector body; masked rows: the pixel positions / channels "
+                    "not named in the scheduled jobs (evidence/C02_tables.json lists jobs per entry)",
+                    "UNBOUNDED row contracts on the C fast paths (route D, harness/C02/fst_rowd.c + rowd_jobs, C02_UNMEASURED=1 builds them): did not close with CBMC 6.11. "
+                    "(a) the un-contracted outer `while (height--)' loop gets an INFERRED write set that omits `height' (assigned in the loop condition) and has more "
+                    "targets than dfcc unwinds its own library loops for -> spurious `height / dst_line is assignable' and library unwinding failures; "
+                    "(b) an explicit two-state contract on the outer loop (height == 1 untouched / height == 0 row done) instruments four copies of the row body: "
+                    "symbolic execution 410-630 s, then out of memory (14 GB) in propositional reduction, for the simplest routine (src_x888_8888). "
+                    "The rows stay bounded (width 3 / one vector body)",
+                    "macro-generated scaled nearest/bilinear main loops (nearest.*: scanline helper only)",
                     "pixman-x86.c CPU detection (cpuid inline asm)", "pixman_blt / pixman_fill (C19)"],
     "explanation": "per-entry status of sse2_fast_paths / c_fast_paths with the names of the scheduled jobs: evidence/C02_tables.json (written by job tables.scan)",
 }
